@@ -114,3 +114,44 @@ Proof.
 Qed.
 Theorem session_minv s0 s : booted = Some s0 -> evals s0 s -> minv s.
 Proof. intros B R. apply rinv_minv. exact (evals_rinv s0 s R (booted_rinv s0 B)). Qed.
+
+(* the same statements with [rinv] / [rpost] unfolded (for Props/C01.v: `exact` must not have to
+   unfold [eval]) *)
+Lemma eval_rinv_plain fuel e s : finv s /\ J s ->
+  match eval other_builtin fuel e s with ROk _ s' | RErr _ _ s' => finv s' /\ J s' | _ => True end.
+Proof.
+  intros [F Hj]. pose proof (eval_post other_builtin fuel e s builtins_ok_other F) as P1.
+  pose proof (eval_other_J fuel e s Hj) as P2.
+  destruct (eval other_builtin fuel e s); cbn [jpost] in P2; auto.
+Qed.
+Lemma prepare_eval_rinv_plain e s : finv s /\ J s ->
+  match prepare_eval e s with ROk _ s' | RErr _ _ s' => finv s' /\ J s' | _ => True end.
+Proof.
+  intros [F Hj]. pose proof (prepare_eval_finv e s F I) as P1. pose proof (kp_prepare_eval e s Hj) as P2.
+  destruct (prepare_eval e s); cbn [post jpost] in *; auto. split; [apply P1|exact P2].
+Qed.
+Lemma run_count_rinv_plain fuel count s : finv s /\ J s ->
+  match run_count other_builtin fuel count s with ROk _ s' | RErr _ _ s' => finv s' /\ J s' | _ => True end.
+Proof.
+  intros [F Hj]. pose proof (run_loop_finv other_builtin builtins_ok_other fuel 0 count s F) as P1.
+  pose proof (run_loop_J other_builtin kp_other_builtin fuel 0 count s Hj) as P2.
+  unfold run_count. destruct (run_loop other_builtin fuel 0 count s); cbn [jpost] in *; auto.
+Qed.
+Lemma load_builtins_rinv_plain s : finv s /\ J s ->
+  match load_builtins s with ROk _ s' | RErr _ _ s' => finv s' /\ J s' | _ => True end.
+Proof.
+  intros [F Hj]. pose proof (pres_load_builtins s F I) as P1. pose proof (kp_load_builtins s Hj) as P2.
+  destruct (load_builtins s); cbn [post jpost] in *; auto. split; [apply P1|exact P2].
+Qed.
+Lemma compile_J_plain f l tail e s : J s ->
+  match compile_expression f l tail e s with ROk _ s' | RErr _ _ s' => J s' | _ => True end.
+Proof.
+  intros R. pose proof (kp_compile_expression f l tail e s R) as P.
+  destruct (compile_expression f l tail e s); cbn [jpost] in P; auto.
+Qed.
+Lemma run_one_J_plain s : J s ->
+  match run_one other_builtin s with ROk _ s' | RErr _ _ s' => J s' | _ => True end.
+Proof.
+  intros R. pose proof (kp_run_one other_builtin kp_other_builtin s R) as P.
+  destruct (run_one other_builtin s); cbn [jpost] in P; auto.
+Qed.
